@@ -246,10 +246,22 @@ def run(rep, tier):
                 ok = ok and norm(p.args[1]) == "*numList" and norm(u.args[1]) == "byteStr"
         rep.check(ok, "F3-pack", "audio.convertFromBytes/convertToBytes", (norm(u.args[0]) if u else "?") + " | " + (norm(p.args[0]) if p else "?"),
                   ok="same byte-order prefix and width->code table on both sides, one code per sample (bytes/width codes when unpacking, len(samples) when packing)", bad="pack and unpack formats differ: converting samples to bytes and back is no longer the identity")
+        # the values packed / unpacked are the argument's, untransformed
+        for fn, par in ((ct, "numList"), (cf, "byteStr")):
+            rebinds = []
+            for n in ast.walk(fn.node):
+                tgts = n.targets if isinstance(n, ast.Assign) else [n.target] if isinstance(n, (ast.AugAssign, ast.AnnAssign)) else []
+                for t in tgts:
+                    if any(isinstance(x, ast.Name) and x.id == par for x in ast.walk(t)):
+                        v = getattr(n, "value", None)
+                        if not (isinstance(n, ast.Assign) and isinstance(v, ast.Call) and norm(v.func) in ("tuple", "list", "bytes") and len(v.args) == 1 and norm(v.args[0]) == par):
+                            rebinds.append(norm(n))
+            rep.check(par in fn.params and not rebinds, "F3-pack", fn.short, "%s reaches struct unchanged" % par, ok="the argument is packed/unpacked as given (never rebound to a transformed copy)",
+                      bad="the samples are transformed before conversion (%s): values are no longer carried over exactly" % "; ".join(rebinds)[:160])
         tbl = audio.const_nodes.get("sampleWidthDict")
         rep.check(tbl is not None and norm(tbl) == "{1: 'b', 2: 'h', 4: 'i', 8: 'q'}", "F3-pack", "audio.sampleWidthDict", norm(tbl) if tbl is not None else "?",
                   ok="struct codes have exactly the stated byte widths (b=1, h=2, i=4, q=8)", bad="width->struct code table changed: a code whose size differs from the sample width misaligns every sample")
-    rep.floor("F3-pack", 2)
+    rep.floor("F3-pack", 4)
 
     rule_nearest(rep)
     rule_seek(rep)
